@@ -705,16 +705,22 @@ func (l *commitLog) split(oldActiveSegment *segment) error {
 	}
 	// Do a CAS on the active segment to ensure no other threads have replaced
 	// it already. If this fails, it means another thread has already replaced
-	// it, so delete the new segment and return ErrSegmentExists.
+	// it, so delete the new segment and return ErrSegmentExists. The swap and
+	// the addition to the segment list happen in one critical section of the
+	// log mutex: as soon as the new segment is active it can be written to and
+	// the high watermark can move into it, so a reader that sees such a high
+	// watermark must also find the segment in the list (and two consecutive
+	// splits must not be listed out of order).
+	l.mu.Lock()
 	if !atomic.CompareAndSwapPointer(
 		(*unsafe.Pointer)(unsafe.Pointer(&l.vActiveSegment)),
 		unsafe.Pointer(oldActiveSegment), unsafe.Pointer(segment)) {
+		l.mu.Unlock()
 		segment.Delete() // nolint: errcheck
 		return ErrSegmentExists
 	}
 	verifCrashPoint("split.after_create")
 	verifGate("split.after_cas")
-	l.mu.Lock()
 	segments := append(l.segments, segment)
 	l.segments = segments
 	l.mu.Unlock()
